@@ -138,3 +138,116 @@ def translate_v(st, va, ispriv, iswrite, wasaligned, rd):
     return dict(kind=kind, level=w['level'], domain=w['domain'], domain_known=w['domain_known'],
                 pa=ite(mmu_on, w['pa'], mva), ns=ite(secure, ite(mmu_on, w['ns'], 0), 1), mem=mem, impdef=land(mmu_on, impdef),
                 unpred=unpred, mva=mva, mmu_on=mmu_on, walk=w)
+
+
+# ------------------------------------------------------------------------------------------------ Long-descriptor format
+
+def mair_type(st, index):
+    """MAIRDecode: memory type (and whether it is architecturally defined) for AttrIndx"""
+    mair = (st['mair1'] << 32) | st['mair0']
+    field = (mair >> (8 * index)) & 0xFF
+    hi, lo = bits(field, 7, 4), bits(field, 3, 0)
+    transient_form = lor(bits(field, 7, 6) == 0, land(bits(field, 7, 6) == 1, bits(field, 5, 4) != 0))
+    defined = ite(hi == 0, lor(lo == 0, lo == 4), lor(lnot(transient_form), st['cfg.implementation_supports_transient']))
+    # inner field: '0xxx' with xxx != 100 are the transient forms as well
+    inner_transient = land(hi != 0, bit(lo, 3) == 0, bits(lo, 2, 0) != 4)
+    defined = land(defined, lor(lnot(inner_transient), st['cfg.implementation_supports_transient']))
+    t = ite(hi == 0, ite(lo == 0, STRONGLY_ORDERED, DEVICE), NORMAL)
+    return t, defined
+
+
+def walk_ld(st, ia, rd8):
+    """stage-1 Long-descriptor walk outside Hyp mode (TTBCR.EAE == 1), input address ia (32 bits).
+    rd8(pa) = 64-bit little-endian doubleword at physical address pa"""
+    ttbcr = st['ttbcr']
+    t0, t1 = bits(ttbcr, 2, 0), bits(ttbcr, 18, 16)
+    in0 = lor(t0 == 0, (ia >> (32 - t0)) == 0)
+    top1 = ia >> (32 - t1)
+    in1 = ite(t1 == 0, lnot(in0), top1 == ((1 << t1) - 1))
+    base_found = lor(in0, in1)
+    use1 = in1                                   # the TTBR1 test comes second and overrides
+    tsz = ite(use1, t1, t0)
+    ttbr = ite(use1, st['ttbr1_64'], st['ttbr0_64'])
+    disabled = ite(use1, bit(ttbcr, 23) == 1, bit(ttbcr, 7) == 1)           # EPD1 / EPD0
+    level0 = ite(bits(tsz, 2, 1) == 0, 1, 2)
+    lower = 9 * level0 - tsz - 4
+    base0 = (bits(ttbr, 39, 0) >> lower) << lower
+    unpred = land(base_found, ((ttbr & ((1 << lower) - 1)) >> 3) != 0)
+    start_bit = 31 - tsz
+    ee = bit(st['sctlr'], 25) == 1
+    secure0 = lor(lnot(st['cfg.have_security_ext']), bit(st['scr'], 0) == 0, bits(st['cpsr'], 4, 0) == 0b10110)
+    from .prims import BigEndianReverse
+    kind = ite(lor(lnot(base_found), disabled), TRANSLATION, NONE)
+    flt_level = 1
+    done = kind != NONE
+    level = level0
+    base = base0
+    lookup_secure = secure0
+    table_rw, table_user, table_xn, table_pxn = True, True, False, False
+    out_addr, attrs, final_level = 0, 0, level0
+    first = True
+    for _ in range(3):                            # at most three levels (1..3)
+        offset = 9 * level
+        if first:
+            sel = ((ia & ((2 << start_bit) - 1)) >> (39 - offset)) << 3
+        else:
+            sel = (((ia & ((1 << (48 - offset)) - 1)) >> (39 - offset)) & 0x1FF) << 3
+        first = False
+        addr = base | sel
+        raw = rd8(addr)
+        d = ite(ee, BigEndianReverse(raw, 8), raw)
+        invalid = bit(d, 0) == 0
+        is_block = land(lnot(invalid), bit(d, 1) == 0)
+        is_table_or_page = land(lnot(invalid), bit(d, 1) == 1)
+        lvl3 = level == 3
+        fault_here = lor(invalid, land(is_block, lvl3))
+        leaf_here = lor(land(is_block, lnot(lvl3)), land(is_table_or_page, lvl3))
+        next_here = land(is_table_or_page, lnot(lvl3))
+        active = lnot(done)
+        kind = ite(land(active, fault_here), TRANSLATION, kind)
+        flt_level = ite(land(active, fault_here), level, flt_level)
+        ia_len = 39 - offset
+        oa = ((bits(d, 39, 0) >> ia_len) << ia_len) | (ia & ((1 << ia_len) - 1))
+        at = (bits(d, 54, 52) << 10) | bits(d, 11, 2)
+        at = ite(table_xn, at | (1 << 12), at)
+        at = ite(table_pxn, at | (1 << 11), at)
+        at = ite(land(secure0, lnot(lookup_secure)), at | (1 << 9), at)
+        at = ite(lnot(table_rw), at | (1 << 5), at)
+        at = ite(lnot(table_user), at & ~(1 << 4), at)
+        at = ite(lnot(lookup_secure), at | (1 << 3), at)
+        take = land(active, leaf_here)
+        out_addr = ite(take, oa, out_addr)
+        attrs = ite(take, at, attrs)
+        final_level = ite(take, level, final_level)
+        done = lor(done, land(active, lor(fault_here, leaf_here)))
+        go = land(active, next_here)
+        base = ite(go, bits(d, 39, 12) << 12, base)
+        lookup_secure = ite(go, land(lookup_secure, bit(d, 63) == 0), lookup_secure)
+        table_rw = ite(go, land(table_rw, bit(d, 62) == 0), table_rw)
+        table_user = ite(go, land(table_user, bit(d, 61) == 0), table_user)
+        table_pxn = ite(go, lor(table_pxn, bit(d, 59) == 1), table_pxn)
+        table_xn = ite(go, lor(table_xn, bit(d, 60) == 1), table_xn)
+        level = ite(go, level + 1, level)
+    af_fault = land(kind == NONE, bit(attrs, 8) == 0)
+    kind = ite(af_fault, ACCESS_FLAG, kind)
+    flt_level = ite(af_fault, final_level, flt_level)
+    return dict(kind=kind, level=ite(kind == NONE, final_level, flt_level), pa=out_addr & ((1 << 40) - 1), attrs=attrs,
+                ap=(bits(attrs, 5, 4) << 1) | 1, xn=bit(attrs, 12), pxn=bit(attrs, 11), ng=bit(attrs, 9), ns=bit(attrs, 3),
+                attrindx=bits(attrs, 2, 0), sh=bits(attrs, 7, 6), unpred=unpred)
+
+
+def translate_v_ld(st, va, ispriv, iswrite, wasaligned, rd8):
+    """TranslateAddressV, stage 1, Long-descriptor format (TTBCR.EAE == 1, not Hyp mode, no Virtualization Extensions)"""
+    mva = fcse_translate(va, st['fcseidr'])
+    w = walk_ld(st, mva, rd8)
+    mtype, defined = mair_type(st, w['attrindx'])
+    walk_ok = w['kind'] == NONE
+    align = land(lnot(wasaligned), mtype != NORMAL)
+    afe = bit(st['sctlr'], 29) == 1
+    perm_abort, perm_unpred = check_permission_abort(w['ap'], ispriv, iswrite, afe, True)
+    kind = first([(lnot(walk_ok), w['kind']), (align, ALIGNMENT), (perm_abort, PERMISSION)], NONE)
+    unpred = lor(w['unpred'], land(walk_ok, lor(align, perm_unpred)))
+    shareable = ite(mtype == NORMAL, bit(w['sh'], 1) == 1, True)
+    outershareable = ite(mtype == NORMAL, w['sh'] == 2, True)
+    return dict(kind=kind, level=w['level'], pa=w['pa'], ns=w['ns'], mtype=mtype, type_defined=defined, shareable=shareable,
+                outershareable=outershareable, unpred=unpred, mva=mva, walk=w)
